@@ -7,6 +7,6 @@ LEVEL_NOTE = ("Coq theorem C20_holds: for every interleaving of the tasks' flush
               "runtime. Tied by capturing a real `log tail` during runs of 3-10 concurrent tasks writing text on both streams, for stream and target filters, and comparing per (stream, target, "
               "command) with the stored logs.")
 TRUSTED = ["Coq 8.16.1 kernel; no axioms", "tokio Mutex serialises LogServerClient::data; TCP delivers in order", "generated text never contains a line that parses as a header", "modelled, not verified: the Rust source"]
-RULE = ("3-10 tasks x 2 streams of newline-terminated text with pauses; filters: both streams, stdout only, stderr only, two targets; one CRLF case; one burst case; one case whose listener output is not read for 3 s while 6 tasks write ~20 MB (back-pressure onto the shared connection); non-trivial = every run; distinct by script")
+RULE = ("3-10 tasks x 2 streams of newline-terminated text with pauses; filters: both streams, stdout only, stderr only, two targets; one CRLF case; one burst case; one case whose listener output is not read for 3 s while 6 tasks write ~20 MB (back-pressure onto the shared connection); multi-command runs with command filters; a failing task among 10-14 chatty siblings; a multi-megabyte line; a filter naming 38 of 40 targets with 130-character paths (filter line of several kilobytes); non-trivial = every run; distinct by script")
 def run(ctx, scale): logscen.run(ctx, scale, "C20")
 def replay(ctx, case): return logscen.replay(ctx, case, "C20")
